@@ -2573,13 +2573,16 @@ class Group(System):
             initialized, the driver for this model must be supplied in order to properly
             initialize the approximations.
         """
+        # a linearization may be nested in a total derivative computation (e.g. when the sparsity of
+        # approximated totals is computed during the first linearization): keep its total jacobian.
+        save_tot_jac = self._tot_jac
         if driver is not None and self.pathname == '' and self._owns_approx_jac:
             self._tot_jac = _TotalJacInfo(driver._problem(), None, None, 'flat_dict', approx=True)
 
         try:
             super().run_linearize(sub_do_ln=sub_do_ln)
         finally:
-            self._tot_jac = None
+            self._tot_jac = save_tot_jac
 
     def _apply_nonlinear(self):
         """
